@@ -41,7 +41,7 @@ theorem class_priority_wins (t : RT) (cidr : String) :
     (∀ r, t.best cidr = some r → r ∈ t.cands cidr ∧ ∀ x ∈ t.cands cidr, better x r = false) ∧
     (∀ x, x ∈ t.cands cidr → (t.bestRoute cidr).isSome = true) ∧
     (t.recalc cidr).desired cidr = t.bestRoute cidr ∧
-    (∀ w : Want, (t.routeUpdate w).desired w.cidr = (t.routeUpdate w).bestRoute w.cidr) := by
+    (∀ w : Want, (t.routeUpdate w).desired (t.norm w.raw) = (t.routeUpdate w).bestRoute (t.norm w.raw)) := by
   refine ⟨fun r h => best_spec t cidr r h, ?_, recalc_desired t cidr, ?_⟩
   · intro x hx
     unfold RT.bestRoute
@@ -116,13 +116,21 @@ def exT : RT :=
     n2i := [("cali1", 10), ("cali2", 11), ("vxlan.calico", 20), ("cali3", 12)]
     i2n := [(10, "cali1"), (11, "cali2"), (20, "vxlan.calico"), (12, "cali3")]
     i2s := [(10, true), (11, true), (20, true), (12, false)]
-    wants := [⟨2, "vxlan.calico", "10.65.0.1/32", "10.0.0.2", "vxlan"⟩, ⟨0, "cali1", "10.65.0.1/32", "", "link"⟩,
-              ⟨1, "cali2", "10.65.0.1/32", "", "link"⟩, ⟨0, "cali3", "10.65.0.1/32", "", "link"⟩] }
+    wants := [⟨2, "vxlan.calico", "10.65.0.1/32", "10.0.0.2", "vxlan", "10.65.0.1/32"⟩, ⟨0, "cali1", "10.65.0.1/32", "", "link", "10.65.0.1/32"⟩,
+              ⟨1, "cali2", "10.65.0.1/32", "", "link", "10.65.0.1/32"⟩, ⟨0, "cali3", "10.65.0.1/32", "", "link", "10.65.0.1/32"⟩] }
 
 example : (exT.best "10.65.0.1/32").map (fun p => (p.1.iface, p.2)) = some ("cali1", 10) := by decide
 example : (exT.cands "10.65.0.1/32").length = 3 := by decide
 example : exT.bestRoute "10.99.0.0/16" = none := by decide
 example : (exT.recalc "10.65.0.1/32").desired "10.65.0.1/32" = some ⟨10, "", 80, "link"⟩ := by decide
+
+/- `normalizeRouteKey`: on an IPv6 table a target given with priority 0 is filed, desired and looked for under
+priority 1024; an explicit priority and IPv4 keys are left alone. -/
+def exT6 : RT := { exT with v6 := true, wants := [], des := [] }
+example : exT6.norm "fd00:65::1/128" = "fd00:65::1/128@1024" ∧ exT6.norm "fd00:7::/64@512" = "fd00:7::/64@512" ∧
+    exT.norm "10.65.0.1/32" = "10.65.0.1/32" := by decide
+example : (exT6.routeUpdate ⟨0, "cali1", "", "", "link", "fd00:65::1/128"⟩).desired "fd00:65::1/128@1024" = some ⟨10, "", 80, "link"⟩ ∧
+    (exT6.routeUpdate ⟨0, "cali1", "", "", "link", "fd00:65::1/128"⟩).desired "fd00:65::1/128" = none := by decide
 
 /-- A start state with a stale owned route (wrong interface), a stale owned route nobody wants, and a foreign
 route on a non-Calico interface. -/
@@ -134,7 +142,7 @@ def exW0 : W :=
 
 /-- A history: route updates, an Apply in which the route listing fails, an interface flap, a foreign route. -/
 def exOps : List Op :=
-  [Op.upd ⟨0, "cali1", "10.65.0.1/32", "", "link"⟩, Op.upd ⟨1, "cali2", "10.65.0.1/32", "", "link"⟩,
+  [Op.upd ⟨0, "cali1", "10.65.0.1/32", "", "link", "10.65.0.1/32"⟩, Op.upd ⟨1, "cali2", "10.65.0.1/32", "", "link", "10.65.0.1/32"⟩,
    Op.apply { routeList := true }, Op.iface "cali2" 11 (some false), Op.iface "cali2" 11 (some true),
    Op.kroute "10.1.0.0/16" ⟨2, "192.168.0.1", 3, "gw"⟩, Op.kroute "10.65.7.7/32" ⟨10, "", 80, "link"⟩, Op.resync]
 
@@ -235,7 +243,7 @@ its routes are no longer desired although the link is up. -/
 def exAlias : RT :=
   { pol := exT.pol, defProto := 80
     n2i := [("cali3", 20), ("vxlan.calico", 20)], i2n := [(20, "cali3")], i2s := [(20, true), (12, true)]
-    wants := [⟨3, "cali3", "10.65.1.0/26", "", "link"⟩]
+    wants := [⟨3, "cali3", "10.65.1.0/26", "", "link", "10.65.1.0/26"⟩]
     des := [("10.65.1.0/26", ⟨20, "", 80, "link"⟩)] }
 
 theorem ifindex_reuse_rescan_witness :
@@ -243,7 +251,7 @@ theorem ifindex_reuse_rescan_witness :
     (exAlias.onIface "vxlan.calico" 0 none).i2n.get 20 = none ∧
     (exAlias.onIface "vxlan.calico" 0 none).i2s.get 20 = none ∧
     (exAlias.onIface "vxlan.calico" 0 none).bestRoute "10.65.1.0/26" = none ∧
-    ((exAlias.onIface "vxlan.calico" 0 none).routeUpdate ⟨3, "cali3", "10.65.1.0/26", "", "link"⟩).desired "10.65.1.0/26" = none := by
+    ((exAlias.onIface "vxlan.calico" 0 none).routeUpdate ⟨3, "cali3", "10.65.1.0/26", "", "link", "10.65.1.0/26"⟩).desired "10.65.1.0/26" = none := by
   decide
 
 /-- The whole history of the known finding, on the model (executable): all hypotheses of
@@ -259,20 +267,20 @@ def exFinding : List Op :=
 #guard ({ exW1.run exFinding with f := {} } : W).attempt.1.t.rescan.isEmpty
 #guard (exW1.run (exFinding ++ [Op.apply {}])).kif.get "cali3" == some ⟨20, true⟩
 #guard (exW1.run (exFinding ++ [Op.apply {}])).t.n2i.get "cali3" == some 20 && (exW1.run (exFinding ++ [Op.apply {}])).t.i2s.get 20 == none
-#guard ((exW1.run (exFinding ++ [Op.apply {}, Op.upd ⟨3, "cali3", "10.65.1.0/26", "", "link"⟩])).stepOp (Op.apply {})).2 == some false
-#guard !((exW1.run (exFinding ++ [Op.apply {}, Op.upd ⟨3, "cali3", "10.65.1.0/26", "", "link"⟩])).stepOp (Op.apply {})).1.CacheTrue
-#guard ((exW1.run (exFinding ++ [Op.apply {}, Op.upd ⟨3, "cali3", "10.65.1.0/26", "", "link"⟩])).stepOp (Op.apply {})).1.truth.bestRoute "10.65.1.0/26" == some ⟨20, "", 80, "link"⟩
-#guard ((exW1.run (exFinding ++ [Op.apply {}, Op.upd ⟨3, "cali3", "10.65.1.0/26", "", "link"⟩])).stepOp (Op.apply {})).1.K.get "10.65.1.0/26" == none
+#guard ((exW1.run (exFinding ++ [Op.apply {}, Op.upd ⟨3, "cali3", "10.65.1.0/26", "", "link", "10.65.1.0/26"⟩])).stepOp (Op.apply {})).2 == some false
+#guard !((exW1.run (exFinding ++ [Op.apply {}, Op.upd ⟨3, "cali3", "10.65.1.0/26", "", "link", "10.65.1.0/26"⟩])).stepOp (Op.apply {})).1.CacheTrue
+#guard ((exW1.run (exFinding ++ [Op.apply {}, Op.upd ⟨3, "cali3", "10.65.1.0/26", "", "link", "10.65.1.0/26"⟩])).stepOp (Op.apply {})).1.truth.bestRoute "10.65.1.0/26" == some ⟨20, "", 80, "link"⟩
+#guard ((exW1.run (exFinding ++ [Op.apply {}, Op.upd ⟨3, "cali3", "10.65.1.0/26", "", "link", "10.65.1.0/26"⟩])).stepOp (Op.apply {})).1.K.get "10.65.1.0/26" == none
 /- ... and once the delayed callbacks arrive the interface is known again and the next Apply programs the route. -/
-#guard ((exW1.run (exFinding ++ [Op.apply {}, Op.upd ⟨3, "cali3", "10.65.1.0/26", "", "link"⟩, Op.apply {}, Op.flush])).stepOp (Op.apply {})).1.K.get "10.65.1.0/26" == some ⟨20, "", 80, "link"⟩
+#guard ((exW1.run (exFinding ++ [Op.apply {}, Op.upd ⟨3, "cali3", "10.65.1.0/26", "", "link", "10.65.1.0/26"⟩, Op.apply {}, Op.flush])).stepOp (Op.apply {})).1.K.get "10.65.1.0/26" == some ⟨20, "", 80, "link"⟩
 
 /- Ordinary histories satisfy the guard: `exOps` above (route updates, a failing listing, an interface flap, foreign
 routes, QueueResync) followed by an Apply with a RouteDel failure; and a history in which links change with delayed
 callbacks and an index is re-used, as long as no per-interface rescan runs in the window. -/
 #guard ((exW0.run exOps).stepOp (Op.apply { del := true })).1.CacheTrue
 def exOps2 : List Op :=
-  [Op.iface "cali1" 10 (some true), Op.upd ⟨0, "cali1", "10.65.0.1/32", "", "link"⟩, Op.apply {},
-   Op.iface "cali1" 10 none, Op.link "cali2" 10 (some true), Op.upd ⟨0, "cali2", "10.65.0.2/32", "", "link"⟩, Op.resync]
+  [Op.iface "cali1" 10 (some true), Op.upd ⟨0, "cali1", "10.65.0.1/32", "", "link", "10.65.0.1/32"⟩, Op.apply {},
+   Op.iface "cali1" 10 none, Op.link "cali2" 10 (some true), Op.upd ⟨0, "cali2", "10.65.0.2/32", "", "link", "10.65.0.2/32"⟩, Op.resync]
 #guard (exW1.run exOps2).t.fullResync
 #guard ((exW1.run exOps2).stepOp (Op.apply {})).2 == some false
 #guard ((exW1.run exOps2).stepOp (Op.apply {})).1.CacheTrue
